@@ -1450,3 +1450,32 @@ def impl_c06_graph(case, scratch):
                 "call_edges": call_edges}
     finally:
         close_ctx(ctx)
+
+
+# ---------------------------------------------------------------- C01: primitive stack operations of every parse_encoded() call
+def impl_parse_trace(case, scratch):
+    """case: texts -> for each text the recordings (operations + returned tree) of all parse_encoded() calls made by parse()"""
+    import stacktrace
+    from wikitextprocessor import parser as P
+    ctx = parse_ctx(scratch)
+    outs = []
+    for t in case["texts"]:
+        ctx.start_page(case.get("title", "Tt"))
+        tr = stacktrace.Tracer(ctx, P)
+        try:
+            tr.run(lambda: ctx.parse(t))
+        except BaseException as e:  # noqa
+            outs.append({"raised": type(e).__name__})
+            ctx.parser_stack = []
+            continue
+        recs = []
+        for rec in tr.finished:
+            chars = set()
+            for op in rec.ops:
+                if op[0] in ("text", "trail"):
+                    chars.update(ch for ch in op[1] if ord(ch) >= 0x10203D)
+            table = {ch: ctx._finalize_expand(ch) for ch in chars}
+            recs.append({"ops": rec.ops, "unknown": rec.unknown, "table": table,
+                         "tree": None if rec.result is None else stacktrace.model_tree(rec.result)})
+        outs.append({"recs": recs, "title": ctx.title})
+    return {"outcome": "ok", "outs": outs}
